@@ -72,8 +72,94 @@ def check(ctx):
     ctx.guard("C10.e UPDATE-IS-REFIT", "fit_predict", lambda: fit_then(ctx, det_base))
     ctx.guard("C10.a HP-FROZEN", "derived-scorers", lambda: derived_alias(ctx))
     ctx.guard("C10.g FIT-ALWAYS-FITS", "wrappers", lambda: fit_always_fits(ctx, det_base, sc_base))
+    ctx.guard("C10.b REFIT-BEFORE-EVALUATE", "adapters-with-history", lambda: shared_adapter_history(ctx))
+    ctx.guard("C10.a HP-FROZEN", "user-objects", lambda: user_objects_not_reconfigured(ctx))
     ctx.expect_min("C10.a HP-FROZEN", sum(1 for o in ctx.obs if o.rule == "C10.a HP-FROZEN" and o.status == "HOLDS"), 15)
     ctx.expect_min("C10.b REFIT-BEFORE-EVALUATE", sum(1 for o in ctx.obs if o.rule == "C10.b REFIT-BEFORE-EVALUATE" and o.status == "HOLDS"), 6)
+
+
+def user_objects_not_reconfigured(ctx):
+    """A scorer / detector object handed in as a hyper-parameter stays as the user configured it: nothing on the
+    construct - fit - evaluate / predict path calls set_params / reset on it or stores into its attributes (fitting it is
+    by design: it is refitted on every use).  An adapter that needs another configuration works on a clone
+    (`baseline_cost.clone().set_params(param=None)` in Saving).  The user's object is an arbitrary object of the base class
+    (abstract), once with a fixed parameter and once without."""
+    rule = "C10.a HP-FROZEN"
+    from . import c06, c15
+    from .common import call_method as _cm, frame_sym as _fs, symbolic_hyperparams as _sh
+
+    def report(name, paths, is_user, loc):
+        bad = {}
+        for p in paths:
+            for e in getattr(p, "events", []):
+                if e.kind in ("set_params", "attr_store") and isinstance(e.data.get("obj"), ObjV) and is_user(e.data["obj"]):
+                    what = "set_params" if e.kind == "set_params" else f"attribute store .{e.data.get('attr')}"
+                    bad.setdefault((e.loc(), what), e)
+                if e.kind == "abstract_call" and e.data.get("method") in ("reset", "set_tags", "set_config") and isinstance(e.data.get("obj"), ObjV) and is_user(e.data["obj"]):
+                    bad.setdefault((e.loc(), e.data["method"]), e)
+        for (l, what), e in bad.items():
+            ctx.violation(rule, f"{name}|user-object|{what}", l, "the object the user passed as a hyper-parameter is re-configured (its own hyper-parameters change under the user's feet, and for every other estimator sharing it)", found=norm_src(e.node)[:100] if e.node is not None else what, expected="work on a clone: obj.clone().set_params(...)")
+        if not bad:
+            ctx.holds(rule, f"{name}|user-object", loc, f"no set_params / reset / attribute store on the user's object on {len(paths)} paths")
+
+    for modattr, width in ((("skchange.change_scores", "ChangeScore"), 3), (("skchange.anomaly_scores", "Saving"), 2), (("skchange.anomaly_scores", "LocalAnomalyScore"), 4)):
+        for cp in ("none", "fixed"):
+            try:
+                cls, ex, paths, st = c06._adapter(ctx, modattr, width, cp)
+            except Undecided as u:
+                # the scenario's tail may leave the analysed subset (e.g. a Saving around a cost without a fixed
+                # parameter raises in __init__); what was observed before still counts
+                paths = []
+                ev = getattr(u, "partial_events", [])
+                if ev:
+                    class _P:  # noqa: N801
+                        events = ev
+                    paths = [_P()]
+                cls = ctx.P.public_class(*modattr)
+            report(f"{modattr[1]}[param={cp}]", paths, lambda o: o.key == "cost", cls.module.relpath)
+    for pkg, name, _ in DRIVER_ENTRIES:
+        cls = ctx.P.public_class(pkg, name)
+        ov = c15._abstract_scorer_overrides(ctx, cls)
+        if not ov:
+            continue
+        ex = new_executor(ctx, dict(ABSTRACT_SUMMARIES), max_paths=300)
+
+        def thunk(ex, cls=cls, ov=ov):
+            kw = _sh(ex, ctx.P, cls, ov)
+            obj = ex.new_object(cls, [], kw)
+            _cm(ex, obj, "fit", _fs(ex))
+            return obj
+
+        try:
+            paths = run(ctx, ex, thunk)
+        except Undecided:
+            continue
+        report(name, paths, lambda o: o.key.startswith("user_"), cls.module.relpath)
+
+
+def shared_adapter_history(ctx):
+    """The cost-based adapters (ChangeScore, Saving, LocalAnomalyScore) refit every wrapped cost on the data of the
+    CURRENT fit: the C06.a NF-ADAPTER scenarios give each adapter a history (fit on other data, evaluate, fit on X) and
+    compare its value with the defining cost differences *on the currently fitted data* - an inner `fit` skipped
+    because the wrapped cost 'is fitted already' leaves the sums of the earlier data in place.  Re-run under the C10
+    id."""
+    from . import c06
+
+    before = len(ctx.obs)
+    mins = dict(ctx.mins)
+    try:
+        c06.check(ctx)
+    except Undecided as u:
+        ctx.undecided("C10.b REFIT-BEFORE-EVALUATE", "adapters-with-history", "", str(u))
+    ctx.mins = mins
+    kept = []
+    for o in ctx.obs[before:]:
+        if o.status == "UNDECIDED" and o.key == "instance-count":
+            continue
+        if ("NF-ADAPTER" in o.rule and o.key.endswith("|value")) or ("NF-ADAPTER" in o.rule and o.status == "UNDECIDED"):
+            o.rule = f"C10.b REFIT-BEFORE-EVALUATE ({o.rule})"
+            kept.append(o)
+    ctx.obs[before:] = kept
 
 
 def _pass_through(stmts, hit):
